@@ -42,7 +42,14 @@ let () =
       if String.length line > 0 && line.[0] <> '#' then begin
         match String.split_on_char '|' line with
         | [tags; args; outs] ->
-          let a = parse_lists args in
+          (* a number the implementation produced that does not even fit 63 bits (e.g. a negative duration printed as uint64)
+             cannot equal any model output: the line is a mismatch, not a reason to stop *)
+          (match (try Some (parse_lists args, List.map parse_lists (String.split_on_char '/' outs)) with Failure _ -> None) with
+           | None ->
+             incr bad; incr cases;
+             Printf.printf "MISMATCH line=%d tag=%s model=number-out-of-range impl=%s\n" !lineno
+               (List.hd (String.split_on_char '+' tags)) (String.sub outs 0 (min 200 (String.length outs)))
+           | Some (a, _) ->
           let tl = String.split_on_char '+' tags and ol = String.split_on_char '/' outs in
           if List.length tl <> List.length ol then begin incr bad; Printf.printf "BADLINE line=%d\n" !lineno end
           else List.iter2 (fun tag o ->
@@ -54,7 +61,7 @@ let () =
             if got <> want then begin
               incr bad;
               Printf.printf "MISMATCH line=%d tag=%d model=%s impl=%s\n" !lineno t (show_lists got) (show_lists want)
-            end) tl ol
+            end) tl ol)
         | _ -> incr bad; Printf.printf "BADLINE line=%d\n" !lineno
       end
     done
